@@ -79,6 +79,14 @@ func encVOP3a(op, vdst, abs, clamp, src0, src1, src2, omod, neg int) []byte {
 	return words(w0, w1)
 }
 
+// VOP3P (CDNA3 packed math; decoded by the simulator as VOP3a opcodes 896 + op7): NEG_HI sits where VOP3a has ABS,
+// OP_SEL in bits 13:11, OP_SEL_HI[2] in bit 14, OP_SEL_HI[1:0] where VOP3a has OMOD.
+func encVOP3P(op, vdst, neghi, opsel, opselhi, src0, src1, src2, neg int) []byte {
+	w0 := uint32(0x34)<<26 | uint32(op&0x3ff)<<16 | uint32((opselhi>>2)&1)<<14 | uint32(opsel&7)<<11 | uint32(neghi&7)<<8 | uint32(vdst&0xff)
+	w1 := uint32(neg&7)<<29 | uint32(opselhi&3)<<27 | uint32(src2&0x1ff)<<18 | uint32(src1&0x1ff)<<9 | uint32(src0&0x1ff)
+	return words(w0, w1)
+}
+
 func encVOP3b(op, vdst, sdst, src0, src1, src2 int) []byte {
 	w0 := uint32(0x34)<<26 | uint32(op&0x3ff)<<16 | uint32(sdst&0x7f)<<8 | uint32(vdst&0xff)
 	w1 := uint32(src2&0x1ff)<<18 | uint32(src1&0x1ff)<<9 | uint32(src0&0x1ff)
